@@ -56,6 +56,7 @@ type verdicts struct {
 	Alter []bool `json:"alter"`
 	Other bool   `json:"other"`
 	Trunc bool   `json:"trunc"`
+	Extend bool  `json:"extend"`
 }
 
 type step struct {
@@ -329,6 +330,12 @@ func runBehaviour(steps []step, w *world, f *findings) (fatalAt int) {
 				f.viol("mta:witness:nil-root-slot", "%s: length %d: WitnessFor(%d) crashes (nil root slot dereferenced)", at, n, s.I)
 				break
 			}
+			if !s.OK { // the spec predicts "no witness" (index out of range)
+				if err == nil {
+					f.viol("mta:witness:out-of-range", "%s: length %d: WitnessFor(%d) returned a witness, spec says there is none", at, n, s.I)
+				}
+				break
+			}
 			if err != nil {
 				f.viol("mta:witness:error", "%s: length %d: WitnessFor(%d): %v", at, n, s.I, err)
 				break
@@ -391,6 +398,8 @@ func tamperChecks(x *acc, w *world, ws []mta.Witness, s *step, n int, at string,
 		}
 		judge("the hash of another item", s.TV.Other, x.a.Verify(cp(), w.term(o, 0)))
 	}
+	ext := append(cp(), mta.Witness{Direction: mta.Right, HashValue: w.term(s.I, 0)})
+	judge("one more element appended (longer than the accumulator is high)", s.TV.Extend, x.a.Verify(ext, w.term(s.I, 0)))
 	if len(ws) > 0 {
 		judge("the last element removed", s.TV.Trunc, x.a.Verify(cp()[:len(ws)-1], w.term(s.I, 0)))
 	}
